@@ -131,8 +131,12 @@ class _OrbitCorrectionService(_DynamicsServiceBase):
         if options is None:
             options = self.correction_options
         
-        # Cache key based on options
-        cache_key = self.make_key("correct", tuple(sorted(options.to_dict().items())))
+        # Cache key based on the state being corrected and the options
+        cache_key = self.make_key(
+            "correct",
+            tuple(np.asarray(self.domain_obj.dynamics.initial_state, dtype=float).tolist()),
+            tuple(sorted(options.to_dict().items())),
+        )
 
         def _factory() -> tuple[np.ndarray, float, OrbitCorrectionDomainPayload, "CorrectionResult"]:
             result = self.corrector.correct(self.domain_obj, options=options)
@@ -144,10 +148,11 @@ class _OrbitCorrectionService(_DynamicsServiceBase):
                     "residual_norm": result.residual_norm,
                 }
             )
-            self.apply_correction(payload)
             return result.x_corrected, 2 * result.half_period, payload, result
 
         state, period, payload, result = self.get_or_create(cache_key, _factory)
+        # Also on a cache hit the orbit must end up carrying the returned state and period
+        self.apply_correction(payload)
         return state, period, result
 
     def apply_correction(self, update: OrbitCorrectionDomainPayload) -> OrbitCorrectionDomainPayload:
@@ -225,6 +230,7 @@ class _OrbitCorrectionService(_DynamicsServiceBase):
         """
         self._correction_config = value
         self._corrector = None  # Invalidate cache to trigger recreation
+        self.reset()  # Cached results were computed with the previous configuration
 
 
 class _OrbitContinuationService(_DynamicsServiceBase):
@@ -278,7 +284,13 @@ class _OrbitContinuationService(_DynamicsServiceBase):
             options = self.continuation_options
         
         # Cache key based on options
-        cache_key = self.make_key("generate", tuple(sorted(options.to_dict().items())))
+        # Cache key based on the seed orbit (state and period) and the options
+        cache_key = self.make_key(
+            "generate",
+            tuple(np.asarray(self.domain_obj.dynamics.initial_state, dtype=float).tolist()),
+            self.domain_obj.dynamics.period,
+            tuple(sorted(options.to_dict().items())),
+        )
 
         def _factory() -> ContinuationDomainPayload:
             result = self.generator.generate(self.domain_obj, options)
@@ -352,6 +364,7 @@ class _OrbitContinuationService(_DynamicsServiceBase):
         """
         self._continuation_config = value
         self._generator = None  # Invalidate cache to trigger recreation
+        self.reset()  # Cached results were computed with the previous configuration
 
     @property
     def continuation_options(self) -> "OrbitContinuationOptions":
